@@ -142,12 +142,17 @@ pub fn parallel_parse(
             });
             match result {
                 Ok(Some(parsed_data)) => {
-                    tx.send(Ok(parsed_data)).unwrap();
+                    // The collector stops at the first error and drops the receiver. Losing
+                    // that race is not an error of its own: there is nothing left to collect.
+                    if tx.send(Ok(parsed_data)).is_err() {
+                        return WalkState::Quit;
+                    }
                     WalkState::Continue
                 }
                 Ok(None) => WalkState::Continue,
                 Err(err) => {
-                    tx.send(Err(err)).unwrap();
+                    // Another worker may already have reported an error.
+                    let _ = tx.send(Err(err));
                     WalkState::Quit
                 }
             }
